@@ -2080,7 +2080,9 @@ class _GroupElem(ABC):
         else:
             coordInElem_n = None
 
-        for e in elements_e:
+        # ascending order: a point shared by several elements keeps the reference coordinates
+        # of the same element the callers select (the last one in `detectedElements_e`)
+        for e in np.unique(elements_e):
             # get element's node coordinates (x, y, z)
             coordElem = coord[connect[e]]
 
